@@ -36,7 +36,7 @@ def ob_neighbour_frame(k0: int, t0: int, g0: int, px: bool, kx: int, tx: int, gx
     pre: SHAPE in (1, 4) or not fa
     pre: SHAPE in (2, 3) or (fv1 == 0 and g0 == 0 and gx == 0)
     pre: until is None or SHAPE == 0
-    pre: SHAPE not in (2, 3) or (not px and (THOROUGH or (g0 in (1, 2) and xid and fv1 < 2)))
+    pre: SHAPE not in (2, 3) or (not px and ((THOROUGH and SHAPE == 2) or (g0 in (1, 2) and xid and fv1 < 2)))
     pre: SHAPE in (0, 3, 4) or (k0 == 0 and kx == 0)
     pre: THOROUGH or SHAPE != 3 or (fv1 < 2 and kx == k0)
     post: _.startswith("ok")
